@@ -17,7 +17,7 @@ GOENV = dict(os.environ, GOFLAGS="-mod=mod", GOPROXY="off", GOSUMDB="off", GOTOO
 
 KF_ALL = ["KF_CollisionWinner", "KF_CounterFirst", "KF_TagAdoptEarly", "KF_ResendHistory",
           "KF_MacPerMessage", "KF_CounterGrowth", "KF_StraySigFlush", "KF_ReAKEWipesMacs", "KF_FragKeep",
-          "KF_BadCommitWipes", "KF_EarlyPeerKey", "KF_RejectCommits", "KF_AKETimerAlways", "KF_SMPCorruptSilent", "KF_EarlySSID"]
+          "KF_BadCommitWipes", "KF_EarlyPeerKey", "KF_RejectCommits", "KF_AKETimerAlways", "KF_SMPCorruptSilent", "KF_EarlySSID", "KF_RequeryNewCommit"]
 
 
 class Broken(Exception):
